@@ -278,11 +278,75 @@ def cli_part(chk):
         shutil.rmtree(d, ignore_errors=True)
 
 
+def hash_seed_part(chk):
+    """every session of a chain is another process with another string-hash seed (PYTHONHASHSEED); variable lists that name a
+    value twice; interruption, resumption, restart of the completed experiment"""
+    d = session.scratch_dir()
+    try:
+        cli.write_fake_harness(d)
+        hp = "-S " + os.path.join(d, "harness.py")
+        raw = {"default_data_file": "h.data",
+               "executors": {"E": {"executable": core.PY, "args": hp}},
+               "benchmark_suites": {"S": {"gauge_adapter": "RebenchLog", "command": "%(benchmark)s %(invocation)s %(input)s",
+                                          "benchmarks": ["Ba"], "input_sizes": ["small", "medium", "large", "small"],
+                                          "tags": ["nightly", "weekly", "nightly", "smoke"]}},
+               "experiments": {"X": {"executions": [{"E": {"suites": ["S"]}}]}}, "runs": {"invocations": 1}}
+        cli.write_yaml(os.path.join(d, "c.yaml"), raw)
+        data = os.path.join(d, "h.data")
+        out1 = "X: iterations=1 runtime: 1000us\n"
+        n = 0
+        for chain, seeds in enumerate([(1, 2, 3), (11, 12, 13)] if chk.tier == "quick" else [(k, k + 7, k + 19) for k in range(1, 9)]):
+            if os.path.exists(data):
+                os.remove(data)
+            env = lambda sd: cli.base_env(d, {"PYTHONHASHSEED": str(sd)})
+            # control: one uninterrupted session
+            cli.set_script(d, {"default": {"out": out1}})
+            cli.clear_starts(d)
+            rc, o, e = cli.rebench(["-D", "c.yaml"], d, env=env(seeds[0]))
+            control = rows_of(data)
+            nctl = len(cli.read_starts(d))
+            if rc != 0 or not control:
+                chk.obligation_broken("harness", "CLI control session (hash seeds)", "rc %s %s" % (rc, e[-400:]))
+                return
+            os.remove(data)
+            # session 1: every start after the third fails the run (exit 1) - a stand-in for an interruption that needs no signal
+            cli.set_script(d, {"block_nth": 0, "default": {"out": out1}, "fail_after_nth": 3})
+            cli.clear_starts(d)
+            cli.rebench(["-D", "c.yaml"], d, env=env(seeds[0]))
+            s1 = len(cli.read_starts(d))
+            cli.set_script(d, {"default": {"out": out1}})
+            cli.clear_starts(d)
+            rc2, o2, e2 = cli.rebench(["-D", "c.yaml"], d, env=env(seeds[1]))
+            s2 = len(cli.read_starts(d))
+            case = dict(config=raw, hash_seeds=seeds)
+            if rc2 != 0 or cli.has_traceback(o2, e2):
+                chk.violation("C08 the resumed session completes (another string-hash seed)", case, 0, dict(rc=rc2, err=e2[-400:]))
+                continue
+            rows = rows_of(data)
+            if rows != control:
+                chk.violation("C08 a resumed chain of sessions (each with another string-hash seed) ends with the measurements of an "
+                              "uninterrupted execution", case, len(control), {str(k): (control.get(k), rows.get(k)) for k in set(rows) | set(control)
+                                                                               if rows.get(k) != control.get(k)})
+                continue
+            before = open(data, "rb").read()
+            cli.clear_starts(d)
+            rc3, o3, e3 = cli.rebench(["-D", "c.yaml"], d, env=env(seeds[2]))
+            if cli.read_starts(d) or open(data, "rb").read() != before or rc3 != 0:
+                chk.violation("C08 restarting a completed experiment starts nothing and leaves the data file byte-identical (another "
+                              "string-hash seed)", case, "no start, same bytes", dict(starts=len(cli.read_starts(d)), rc=rc3))
+            n += 1
+            chk.case(("hash-seeds", seeds))
+        chk.count("chains_with_a_different_hash_seed_per_session", n)
+    finally:
+        shutil.rmtree(d, ignore_errors=True)
+
+
 def run(chk):
     chk.prove(models=["Model/Machine"])
     exprs = []
     in_process_part(chk, exprs)
     cli_part(chk)
+    hash_seed_part(chk)
     try:
         res = core.coq_eval(IMPORTS, [e[3] for e in exprs], chk.scratch, chunk=40, jobs=16)
     except core.BuildError as exc:
